@@ -144,3 +144,7 @@ SUBCHECKS = [
         note='exact cell-count / payload-size boundaries of the size and offset fields; depth-1023 chain and ladder'),
     Sub('dags-x-6-optionsets', check, strategy=strat, classify=classify, nontrivial=nt, n=(800, 15000), shards=(16, 32)),
 ]
+
+# the same generated cases, several at a time, checked by threads that run at the same time (core.run_overlapping): per-call state
+# kept in a place two calls share shows only there
+SUBCHECKS.append(__import__('harness.core', fromlist=['overlapped']).overlapped(next(s for s in SUBCHECKS if s.name == 'dags-x-6-optionsets'), k=2, n=(20, 600)))
